@@ -434,3 +434,62 @@ func presenceOf(cond ssa.Value) (l *ssa.Lookup, presentOnTrue bool, isP bool) {
 	}
 	return nil, false, false
 }
+
+// lookupWrappers: repo functions that are the path lookup with a precondition — same receiver and argument handed
+// on, and every return is either nil or the result of the lookup (findSchemaNode: refuse some paths, else Find).
+func (c *Ctx) lookupWrappers(find *ssa.Function) map[*ssa.Function]bool {
+	out := map[*ssa.Function]bool{}
+	for _, fn := range c.Funcs {
+		if fn == find || !c.isRepoFn(fn) || fn.Blocks == nil || fn.Parent() != nil {
+			continue
+		}
+		if !types.Identical(fn.Signature.Params(), find.Signature.Params()) || !types.Identical(fn.Signature.Results(), find.Signature.Results()) {
+			continue
+		}
+		if fn.Signature.Recv() == nil || find.Signature.Recv() == nil || !types.Identical(fn.Signature.Recv().Type(), find.Signature.Recv().Type()) {
+			continue
+		}
+		calls := c.callsTo(fn, find)
+		if len(calls) == 0 {
+			continue
+		}
+		okAll := true
+		for _, ci := range calls {
+			a := ci.Common().Args
+			for i := range a {
+				if !isParamN(fn, a[i], i) {
+					okAll = false
+				}
+			}
+		}
+		eachInstr(fn, func(in ssa.Instruction) {
+			r, isR := in.(*ssa.Return)
+			if !isR || len(r.Results) != 1 {
+				return
+			}
+			v := resolveSpill(r.Results[0], r)
+			if isNilConst(v) {
+				return
+			}
+			if call, isC := v.(*ssa.Call); isC && call.Call.StaticCallee() == find {
+				return
+			}
+			okAll = false
+		})
+		if okAll {
+			out[fn] = true
+		}
+	}
+	return out
+}
+
+// callsToLookup: the calls of the path lookup in fn, directly or through a lookup wrapper.
+func (c *Ctx) callsToLookup(fn, find *ssa.Function) []ssa.CallInstruction {
+	out := c.callsTo(fn, find)
+	for w := range c.lookupWrappers(find) {
+		if w != fn {
+			out = append(out, c.callsTo(fn, w)...)
+		}
+	}
+	return out
+}
